@@ -471,6 +471,7 @@ func c09GlueOne(job c09GlueJob) (res c09GlueResult) {
 	}
 	builders := map[string]*bInfo{}
 	var names []string
+	typeCtors := map[string]bool{}
 	converters := map[string]string{} // function name -> input type text
 	imports := map[string]string{}    // local name -> import path
 	for _, f := range files {
@@ -481,6 +482,14 @@ func c09GlueOne(job c09GlueJob) (res c09GlueResult) {
 		isBuilder := strings.HasSuffix(base, "_builder_gen.go")
 		isConv := strings.HasSuffix(base, "_converter_gen.go")
 		if !isBuilder && !isConv {
+			// the types: remember the argument-less constructors New<T>() *T
+			if af, err := parser.ParseFile(fset, f, nil, parser.SkipObjectResolution); err == nil {
+				for _, d := range af.Decls {
+					if fd, ok := d.(*ast.FuncDecl); ok && fd.Recv == nil && strings.HasPrefix(fd.Name.Name, "New") && len(fd.Type.Params.List) == 0 {
+						typeCtors[fd.Name.Name] = true
+					}
+				}
+			}
 			continue
 		}
 		af, err := parser.ParseFile(fset, f, nil, parser.SkipObjectResolution)
@@ -613,6 +622,9 @@ func c09GlueOne(job c09GlueJob) (res c09GlueResult) {
 		fmt.Fprintf(&reg, "\t\tBuild: func(b any) (any, error) { return b.(*%sBuilder).Build() },\n", n)
 		fmt.Fprintf(&reg, "\t\tPeek: func(b any) any { return b.(*%sBuilder).internal },\n", n)
 		fmt.Fprintf(&reg, "\t\tErrs: func(b any) []string {\n\t\t\tout := []string{}\n\t\t\tfor k := range b.(*%sBuilder).errors {\n\t\t\t\tout = append(out, k)\n\t\t\t}\n\t\t\treturn out\n\t\t},\n", n)
+		if typeCtors["New"+bi.gb.Object] {
+			fmt.Fprintf(&reg, "\t\tDefault: func() any { return New%s() },\n", bi.gb.Object)
+		}
 		if in, ok := converters[n+"Converter"]; ok {
 			bi.gb.Converter = true
 			fmt.Fprintf(&reg, "\t\tConvert: func(raw []byte) (string, any, error) {\n\t\t\tvar v %s\n\t\t\tif err := json.Unmarshal(raw, &v); err != nil {\n\t\t\t\treturn \"\", nil, err\n\t\t\t}\n\t\t\treturn %sConverter(v), &v, nil\n\t\t},\n", in, n)
